@@ -134,6 +134,7 @@ public:
   inline sandbox_callback& operator=(sandbox_callback&& other)
   {
     if (this != &other) {
+      unregister();
       move_obj(std::forward<sandbox_callback>(other));
     }
     return *this;
@@ -227,6 +228,7 @@ public:
   inline app_pointer& operator=(app_pointer&& other)
   {
     if (this != &other) {
+      unregister();
       move_obj(std::forward<app_pointer>(other));
     }
     return *this;
